@@ -233,6 +233,7 @@ class Ctx:
     # ------------------------------------------------------------- scenarios
     def run_scenarios(self, scs, name="sc", par=16, isolate=False, timeout=1800, child_timeout=60):
         vh = self.build_harness()
+        self.last_run = {"harness_cmd": getattr(self, "harness_cmd", "vh"), "isolate": bool(isolate)}
         inp = os.path.join(self.work, name + ".json")
         outp = os.path.join(self.work, name + ".ndjson")
         with open(inp, "w") as f:
@@ -265,6 +266,7 @@ class Ctx:
         env = {"VERIF_TRACE": trace}
         if extra_env:
             env.update(extra_env)
+        self.last_validate = {"mon": mon, "consts": consts, "reset_with_state": reset_with_state}
         tm = "Trace_" + mon
         with open(os.path.join(SPEC, tm + ".tla"), "w") as f:
             f.write(TRACE_TEMPLATE.replace("@MON@", mon).replace("MonReset(e)", "MonResetM(mon, e)" if reset_with_state else "MonReset(e)"))
@@ -372,7 +374,8 @@ class Ctx:
         sid = re.sub(r"[^A-Za-z0-9_.-]", "_", (sc or {}).get("id", "unknown"))[:80]
         path = os.path.join(d, "%s-%s.json" % (self.pid, sid))
         with open(path, "w") as f:
-            json.dump({"property": self.pid, "clause": clause, "scenario": sc, "trace": evs}, f, indent=1)
+            json.dump({"property": self.pid, "clause": clause, "scenario": sc, "how": dict(getattr(self, "last_run", {}), **getattr(self, "last_validate", {})),
+                       "trace": evs}, f, indent=1)
         return path
 
     # --------------------------------------------------------------- finish
